@@ -534,6 +534,23 @@ def mps_overlap(Bra, Ket):
     return complex(E[0, 0])
 
 
+def mps_overlap_log(Bra, Ket):
+    """<Bra|Ket> as (mantissa, binary exponent): value = mantissa * 2**exponent, the transfer matrix is renormalised by an exact power of
+    two after every site, so chains whose overlap leaves the floating-point range are handled."""
+    E = np.ones((1, 1), dtype=complex)
+    ex = 0
+    for B, K in zip(Bra, Ket):
+        T = np.einsum('bk,sbc->ksc', E, np.conj(np.asarray(B)))
+        E = np.einsum('ksc,skl->cl', T, np.asarray(K))
+        m = float(np.abs(E).max())
+        if m == 0:
+            return 0j, 0
+        k = int(np.frexp(m)[1])
+        E = np.ldexp(E.real, -k) + 1j * np.ldexp(E.imag, -k)
+        ex += k
+    return complex(E[0, 0]), ex
+
+
 def mpo_element(Bra, W, Ket):
     """<Bra| W |Ket> for MPS tensor lists and MPO tensors (d_out, d_in, Dl, Dr)."""
     E = np.ones((1, 1, 1), dtype=complex)           # (bra bond, mpo bond, ket bond)
